@@ -22,7 +22,7 @@ RULE = (
     "rational polygon alphabets (P in int / Fraction(den 1) / int-Fraction mixed / x/3+1/7 / halves, one slice of "
     "the lattice-triangle pairs, the ladder x*(q+1)/q for q in 7, 1001, 100003, 10000019 whose exact crossing "
     "denominators straddle 10^9) x {| & - ^ ~, depth-2 programs, JordanCurve.intersection, split at rational nodes, "
-    "integrals a+b<=3, move/scale by int and Fraction}: every stored coordinate, parameter and moment must be an "
+    "integrals a+b<=6, move/scale by int and Fraction}: every stored coordinate, parameter and moment must be an "
     "int or a Fraction with int numerator/denominator; crossing parameters equal the exact values; every result vertex "
     "is exactly an operand vertex or an exact crossing point when that point's denominators are <= 10^9, else within "
     "1e-9 of it; the same program list under Python 3.11 gives byte-identical dumps. "
@@ -242,8 +242,8 @@ def judge_single(e, hist, viols, nontrivial):
         nontrivial.append(sid + " " + tag)
     # integrals
     S = al.lib_eval(e)
-    for a in range(4):
-        for b in range(4 - a):
+    for a in range(7):
+        for b in range(7 - a):
             m = lib.IntegrateShape.polynomial(S, a, b)
             if rg.typecode(m) not in ("i", "F") or rg.ex(m) != oc.ref_moment(S, a, b):
                 viols.append({"case_id": "%s :: moment(%d,%d)" % (sid, a, b), "what": "%r (%s), exact %s" % (m, rg.typecode(m), oc.ref_moment(S, a, b)), "replay": rep})
